@@ -58,9 +58,11 @@ Theorem c12_handler_returns_needed :
   (let s' := run (Et.step true) [Et.TRun; Et.TRun; Et.TRun; Et.TRun; Et.TRun] c12_s_inh in
    Et.done s' = true /\ Et.hbegun s' = Et.hbegun c12_s_inh).
 Proof.
-  split; [eexists _, _; reflexivity|].
-  repeat split; try (vm_compute; reflexivity).
-  intro n. rewrite c12_inh_stutter. vm_compute. reflexivity.
+  split; [exists [[IBlock 1 true; IBlock 2 true]], ([Et.TRun; Et.TRun; Et.TRun; Et.TRun] ++ [Et.TX; Et.TX; Et.TX; Et.TX]); reflexivity|].
+  split; [vm_compute; reflexivity|]. split; [vm_compute; reflexivity|]. split; [vm_compute; reflexivity|].
+  split.
+  - intro n. rewrite c12_inh_stutter. vm_compute. reflexivity.
+  - cbv zeta. split; vm_compute; reflexivity.
 Qed.
 Print Assumptions c12_handler_returns_needed.
 
@@ -84,9 +86,13 @@ Theorem c12_mx_inner_returned_needed :
   Mx.log s2 = EHBegin 1 2 :: EPoint 25 :: EPoint 26 :: EHEnd 0 1 true :: Mx.log c12_mx_s1 /\
   hd ERet (Mx.log c12_mx_s1) = ERet.
 Proof.
-  split; [eexists _, _, _; reflexivity|].
-  repeat split; try (vm_compute; reflexivity).
-  intro H. specialize (H 1 (Mx.mki 1 true (Mx.IWant 2 true) []) eq_refl). vm_compute in H. discriminate.
+  split; [exists 2, [[IBlock 1 true]; [IBlock 2 true]], c12_mx_sched1; reflexivity|].
+  split; [vm_compute; reflexivity|]. split; [vm_compute; reflexivity|]. split; [vm_compute; reflexivity|].
+  split.
+  - intro H.
+    assert (E : nth_error (Mx.inners c12_mx_s1) 1 = Some (Mx.mki 1 true (Mx.IWant 2 true) [])) by (vm_compute; reflexivity).
+    apply H in E. vm_compute in E. discriminate.
+  - cbv zeta. split; [vm_compute; reflexivity|]. split; vm_compute; reflexivity.
 Qed.
 Print Assumptions c12_mx_inner_returned_needed.
 
@@ -104,8 +110,9 @@ Theorem c12_mx_inner_returned_needed_fail :
   let s4 := run Mx.step [Mx.TIn 1; Mx.TIn 1] c12_mx_s3 in
   Mx.hbegun s4 = S (Mx.hbegun c12_mx_s3) /\ hd ERet (Mx.log s4) = EHBegin 1 2.
 Proof.
-  split; [eexists _, _, _; reflexivity|].
-  repeat split; vm_compute; reflexivity.
+  split; [exists 2, [[IBlock 1 false]; [IBlock 2 true]], c12_mx_sched2; reflexivity|].
+  split; [vm_compute; reflexivity|]. split; [vm_compute; reflexivity|]. split; [vm_compute; reflexivity|].
+  split; [vm_compute; reflexivity|]. cbv zeta. split; vm_compute; reflexivity.
 Qed.
 Print Assumptions c12_mx_inner_returned_needed_fail.
 
@@ -122,9 +129,10 @@ Theorem c12_mx_started_needed :
   exists i, nth_error (Mx.inners c12_mx_s5) 0 = Some i /\ Mx.started i = false /\ Mx.i_term i = false /\
   rev (Mx.log c12_mx_s5) = [EPoint 20; EPoint 22; EFactory 0 0; EPoint 23; EPoint 24; EPoint 21; ERet].
 Proof.
-  split; [eexists _, _, _; reflexivity|].
+  split; [exists 1, [[IBlock 1 true]], c12_mx_sched3; reflexivity|].
   split; [vm_compute; reflexivity|].
-  eexists. split; [vm_compute; reflexivity|]. repeat split; vm_compute; reflexivity.
+  exists (Mx.mki 0 false Mx.INew [IBlock 1 true]).
+  split; [vm_compute; reflexivity|]. split; [vm_compute; reflexivity|]. split; vm_compute; reflexivity.
 Qed.
 Print Assumptions c12_mx_started_needed.
 
